@@ -416,6 +416,8 @@ func replyEngine(args []string) error {
 		return replyConc(r, c.n, base)
 	case "tcpstorm":
 		return replyTCPStorm(r, c.n, base)
+	case "tcpstall":
+		return replyTCPStall(r, c.n, base)
 	case "storm":
 		return replyStorm(r, c.n, base)
 	case "replay":
@@ -1281,4 +1283,72 @@ func r2bytes(n int) []byte {
 		b[i] = byte(i*37 + 11)
 	}
 	return b
+}
+
+// ---- mode tcpstall (C05, C01): one TCP connection, many pipelined queries with large answers, and a client that
+// stops reading for several request timeouts while the replies pile up in the socket buffers, then reads on.
+// However long the proxy had to wait with a reply half written, what finally arrives is a sequence of whole
+// messages, each delimited by its length prefix.   tcpstall <id> <k> <answer bytes> => <whole> <foreign> <leftover>
+func replyTCPStall(r *rng, n int, base int) error {
+	for round := 0; round < n; round++ {
+		w, err := newWorld(base+round%20, 64, 250*time.Millisecond)
+		if err != nil {
+			return err
+		}
+		k := r.rng(150, 260)
+		size := []int{60000, 40000, 65000}[r.intn(3)]
+		want := map[int]int{}
+		var raw []byte
+		for j := 0; j < k; j++ {
+			name := fmt.Sprintf("s%d.stall.", j)
+			q := msgSpec{id: 1000 + j, flags: 0x0100, qs: [][]byte{question(encodeName(strings.TrimSuffix(name, ".")), 16, 1)}}.encode()
+			resp := append([]byte{}, q...)
+			resp[2] |= 0x80
+			resp = append(resp, filler(size-len(resp), j&0xff)...)
+			want[1000+j] = len(resp)
+			w.up.mu.Lock()
+			w.up.script[name] = &behaviour{kind: "up", msg: resp}
+			w.up.mu.Unlock()
+			raw = append(raw, frame(q)...)
+		}
+		whole, foreign, leftover := 0, 0, 0
+		if c, err := net.Dial("tcp", w.addr); err == nil {
+			if tc, ok := c.(*net.TCPConn); ok {
+				_ = tc.SetReadBuffer(64 << 10)
+			}
+			go func() { _, _ = c.Write(raw) }()
+			time.Sleep(time.Duration(r.rng(900, 1400)) * time.Millisecond) // not reading: several request timeouts long
+			var st []byte
+			buf := make([]byte, 1<<20)
+			for {
+				_ = c.SetReadDeadline(time.Now().Add(1500 * time.Millisecond))
+				m, err := c.Read(buf)
+				st = append(st, buf[:m]...)
+				if err != nil {
+					break
+				}
+				if len(st) >= k*(size+2) {
+					break
+				}
+			}
+			c.Close()
+			for len(st) >= 2 {
+				l := int(st[0])<<8 | int(st[1])
+				if len(st) < 2+l {
+					break
+				}
+				if l >= 12 && want[int(st[2])<<8|int(st[3])] == l && st[4]&0x80 != 0 {
+					whole++
+					delete(want, int(st[2])<<8|int(st[3]))
+				} else {
+					foreign++
+				}
+				st = st[2+l:]
+			}
+			leftover = len(st)
+		}
+		w.stop()
+		emit("tcpstall", itoa(round), itoa(k), itoa(size), "=>", itoa(whole), itoa(foreign), itoa(leftover))
+	}
+	return nil
 }
